@@ -142,6 +142,32 @@ def account(ctx, results):
             for m in sorted(set(x.split(":")[1] for x in st.split(","))):
                 ctx.histogram["steer:mode-" + m] += 1
             ctx.histogram["steer:stalls"] += sum(1 for e in evs if e[1] == "stall")
+            # did a hold really engage?  the held handler's first command was recorded before the fate of the awaited one
+            first = {}
+            for e in evs:
+                if e[1] == "cmd" and e[3] == "0":
+                    first.setdefault(("start", e[2]), int(e[0]))
+                elif e[1] == "done":
+                    first.setdefault(("done", e[2]), int(e[0]))
+                    first.setdefault(("res", e[2]), e[3])
+            modes = dict(x.split(":") for x in st.split(","))
+            for l in case:
+                if not l.startswith("try "):
+                    continue
+                f = l.split()
+                k, body = f[1], f[3].split("=")[1]
+                succ, fail, fin = (x.split("=")[1] for x in f[4:7])
+                m = modes.get(k)
+                sel = {"ok": succ, "fail": fail}.get(first.get(("res", body)), "-")
+                if not m or fin == "-" or sel == "-":
+                    continue
+                held, awaited = (sel, fin) if m in "sS" else (fin, sel)
+                t0 = first.get(("start", held))
+                fate = first.get(("done", awaited), 1 << 60)
+                if m in "sf":
+                    fate = min(fate, first.get(("start", awaited), 1 << 60))
+                if t0 is not None:
+                    ctx.histogram["steer:hold-engaged" if t0 < fate else "steer:fate-seen-before-hold"] += 1
         # finding KF-C16-1: a handler accepted into an already failed context runs detached from its owner
         roles = {l.split()[1]: l.split()[2] for l in case if l.startswith("task ")}
         closed_at = {e[2]: int(e[0]) for e in evs if e[1] == "done"}
